@@ -2,3 +2,4 @@ import Driver.Parse
 import Driver.Smt
 import Driver.Fk
 import Driver.ModelMode
+import Driver.FramesMode
